@@ -3,6 +3,7 @@
 mod common;
 mod ed;
 mod hist;
+mod keys;
 mod pty;
 
 use common::CharInfoEmitter;
@@ -21,6 +22,7 @@ fn exec_line(req: &str) -> String {
     let r = catch_unwind(AssertUnwindSafe(|| match f.first().copied() {
         Some("hist") => hist::exec(&f[1..]),
         Some("ed") => ed::exec(&f[1..]),
+        Some("keys") => keys::exec(&f[1..]),
         _ => None,
     }));
     match r {
@@ -86,6 +88,7 @@ fn main() {
             match target.as_str() {
                 "hist" => hist::gen(&ctx, &mut sink),
                 "ed" => ed::gen(&ctx, &mut sink),
+                "keys" => keys::gen(&ctx, &mut sink),
                 _ => {
                     eprintln!("unknown target");
                     std::process::exit(2)
